@@ -488,6 +488,8 @@ class Unit:
         return Unit(
             self.expr**p,
             base_value=(self.base_value**p),
+            # only the first power of an offset unit gets this far
+            base_offset=(self.base_offset if p == 1 else 0.0),
             dimensions=(self.dimensions**p),
             registry=self.registry,
         )
